@@ -350,10 +350,12 @@ def run_shard(args):
         s, r = w.call("mkcalendar", "MKCALENDAR", w.url("/user/calendars/cal0/"), [X.XML_CT], X.mkcalendar([(X.P_DISPLAYNAME, v1), (X.P_CALCOLOR, v2)]))
         if W.World.success(s.eff):
             # the mkcalendar-response carries one propstat per property
+            # (RFC 4791 5.3.1 / RFC 5689 3: the request is atomic; a 201 whose body names no status for a property
+            # reports that everything asked for was done)
             for k, v in ((X.P_DISPLAYNAME, v1), (X.P_CALCOLOR, v2)):
                 st = propstat_of(r.body).get(k)
                 res.count("mkcalendar_prop_status:%s" % st)
-                if st == 200:
+                if st == 200 or st is None:
                     run.model["/user/calendars/cal0/"][k] = v
                     run.provenance["/user/calendars/cal0/"][k] = "MKCALENDAR"
         else:
@@ -372,7 +374,7 @@ def run_shard(args):
             if W.World.success(s.eff):
                 ok = propstat_of(r.body)
                 for k, v in pairs:
-                    if ok.get(k) == 200:
+                    if ok.get(k, 200) == 200:
                         run.model[ab][k] = v
                         run.provenance[ab][k] = how
             else:
